@@ -220,7 +220,7 @@ func (sw *sweepResult) finish(eng *Engine, verif string, update bool) {
 	}
 	// new failing obligations: only reported when the solver's model reproduces a panic on the real code
 	for _, o := range sw.undecided {
-		if o.Result != "sat" {
+		if o.Result != "sat" && !o.candidate {
 			continue
 		}
 		if sw.known(verif, o) {
